@@ -78,6 +78,9 @@ type symMsg struct {
 	Chain    int
 	SignedBy int // -1: signature that does not recover
 	TxType   int // 0 NativeSend
+	// harness only (not part of the symbolic description): the message's self-declared Hash field is replaced by the
+	// hash of the sender's last genuine Ethereum transaction (the field is not part of anything signed)
+	ReuseHash bool
 }
 
 func (m symMsg) String() string {
@@ -221,6 +224,7 @@ type c02 struct {
 	w               *World
 	priv            []*secp256k1.PrivKey
 	ecd             []*ecdsa.PrivateKey
+	ethHash         map[string]string // sender -> Hash field of its last genuine Ethereum transaction
 	pkIdx           map[string]int
 	caseNo          int
 	inBlock         bool
@@ -379,6 +383,16 @@ func (h *c02) realMsg(m symMsg) sdk.Msg {
 		msg := &tokenstypes.MsgEthereumTx{TxType: tt, Sender: h.addr(m.Sender).String()}
 		if err := msg.FromEthereumTx(raw); err != nil {
 			panic(err)
+		}
+		if h.ethHash == nil {
+			h.ethHash = map[string]string{}
+		}
+		if m.Sender.Kind == 'e' && m.SignedBy == m.Sender.N {
+			h.ethHash[m.Sender.String()] = msg.Hash // a transaction really signed by the sender's key
+		} else if m.ReuseHash {
+			if old, ok := h.ethHash[m.Sender.String()]; ok {
+				msg.Hash = old
+			}
 		}
 		return msg
 	}
@@ -851,7 +865,7 @@ var (
 	c02Modes  = []string{"direct", "amino", "eip712", "raweth"}
 	c02Pks    = []string{"none", "own", "wrongC", "wrongE"}
 	c02States = []string{"freshC", "keyedC", "freshE", "keyedE"}
-	c02Strats = []string{"honest", "wrongkey", "stale-seq", "future-seq", "stale-payload", "seq-field-only", "wrong-chain", "wrong-accnum", "lifted", "fee-edit", "memo-edit", "pk-edit", "mode-edit", "bad-enc", "unsigned-2nd", "swapped-sigs", "unsupported-mode", "second-msg-edit", "type-swap"}
+	c02Strats = []string{"honest", "wrongkey", "stale-seq", "future-seq", "stale-payload", "seq-field-only", "wrong-chain", "wrong-accnum", "lifted", "fee-edit", "memo-edit", "pk-edit", "mode-edit", "bad-enc", "unsigned-2nd", "swapped-sigs", "unsupported-mode", "second-msg-edit", "type-swap", "eth-hash-reuse"}
 )
 
 func c02Applicable(kind, mode, pk, state, strat string) bool {
@@ -1055,6 +1069,11 @@ func (h *c02) build(kind, mode, pk, state, strat string, k, k2 int) *c02Case {
 	case "wrongkey": // a stranger signs (attached key as chosen: "own" = victim's key with the attacker's signature)
 		if mode == "raweth" {
 			setEth(core, func(m *symMsg) { m.SignedBy = X1 })
+		}
+		c.sigs = all(sign(X1, core, 0, 1, num, seq), core)
+	case "eth-hash-reuse": // as "wrongkey", and the message labels itself with the hash of the victim's last genuine transaction
+		if mode == "raweth" {
+			setEth(core, func(m *symMsg) { m.SignedBy = X1; m.ReuseHash = true })
 		}
 		c.sigs = all(sign(X1, core, 0, 1, num, seq), core)
 	case "stale-seq", "future-seq": // the owner's own signature for another sequence (field and payload)
